@@ -61,6 +61,12 @@ EXPECT = [
     ('refuse a security block without targets or with mismatched results', ['C12']),
     ('restart the BTP-U receive timeout', ['C20']),
     ('send BTP-U frames on the listening socket', ['C20']),
+    ('complete a BTP-U transfer whose only segment is an end segment', ['C20']),
+    ('keep the payload of an encrypted administrative record encrypted', ['C16']),
+    ('bind a received security block by the received octets', ['C03', 'C16']),
+    ('reject an XFER_REFUSE for a transfer that is queued but has not been started', ['C17']),
+    ('let Agent.shutdown() deal with contacts that are already ending', ['C09']),
+    ('remove received Previous Node and Bundle Age blocks by type code', ['C11']),
 ]
 
 
@@ -119,6 +125,12 @@ def main():
             subprocess.run(['git', '-C', '/repo', 'worktree', 'remove', '--force', wtree], capture_output=True)
             shutil.rmtree(tmp, ignore_errors=True)
     out = os.path.join(VERIF, 'selftest', 'regress_result.json')
+    if args and os.path.exists(out):
+        # a partial run updates the entries of the commits it covered
+        with open(out) as infile:
+            keep = [item for item in json.load(infile) if not any(item['commit'].startswith(arg) or arg.startswith(item['commit']) for arg in args)]
+        order = [sha for (sha, _subject) in commits]
+        results = sorted(keep + results, key=lambda item: order.index(item['commit']) if item['commit'] in order else -1)
     with open(out, 'w') as outfile:
         json.dump(results, outfile, indent=1)
     missed = [item for item in results if item['status'] != 'detected']
